@@ -122,6 +122,8 @@ fn speak_rules(rules: &'static std::thread::LocalKey<RefCell<SpeechRules>>, math
                 bail!(NAV_NODE_SPEECH_NOT_FOUND);
             }
         }
+        #[cfg(mathcat_verif)]
+        verif_log_join(vec![], speech_string.clone());
         return Ok( rules.pref_manager.borrow().get_tts()
                     .merge_pauses(remove_optional_indicators(
                         &speech_string.replace(CONCAT_STRING, "")
@@ -842,6 +844,8 @@ impl<'r> ReplacementArray {
         if replacement_strings.is_empty() {
             return Ok( "".to_string() );
         }
+        #[cfg(mathcat_verif)]
+        let verif_inputs = replacement_strings.clone();
         // delete an optional text that is repetitive
         // we do this by looking for the optional text marker, and if present, check for repetition at end of previous string
         // if repetitive, we delete the optional string
@@ -867,6 +871,8 @@ impl<'r> ReplacementArray {
 
         // join the strings together with spaces in between
         // concatenation (removal of spaces) is saved for the top level because they otherwise are stripped at the wrong sometimes
+        #[cfg(mathcat_verif)]
+        verif_log_join(verif_inputs, replacement_strings.join(" "));
         return Ok( replacement_strings.join(" ") );
 
         fn is_repetitive<'a>(prev: &str, optional: &'a str) -> Option<&'a str> {
@@ -2775,4 +2781,28 @@ mod tests {
     //     assert_eq!(result.unwrap(), r#"DEBUG(*[2]/*[3][DEBUG(text()='(')], "DEBUG(*[2]/*[3][DEBUG(text()='(')], \"text()='(')]\")"#);
     // }
 
+}
+
+// ---- verification hooks (compiled only with --cfg mathcat_verif); see /verif/DESIGN.md §5 (H5)
+#[cfg(mathcat_verif)]
+thread_local!{
+    static VERIF_JOIN_LOG: RefCell<Vec<(Vec<String>, String)>> = const { RefCell::new(Vec::new()) };
+}
+
+/// one entry per replace_array_string call: (non-empty replacement strings, joined result);
+/// an entry with no inputs is the string speak_rules is about to clean up
+#[cfg(mathcat_verif)]
+fn verif_log_join(inputs: Vec<String>, output: String) {
+    VERIF_JOIN_LOG.with(|log| {
+        let mut log = log.borrow_mut();
+        if log.len() < 100_000 {
+            log.push((inputs, output));
+        }
+    });
+}
+
+/// the entries logged since the last call (the log is emptied)
+#[cfg(mathcat_verif)]
+pub fn verif_take_join_log() -> Vec<(Vec<String>, String)> {
+    return VERIF_JOIN_LOG.with(|log| std::mem::take(&mut *log.borrow_mut()));
 }
